@@ -279,11 +279,17 @@ def execute(body, d, rt, split=None):
         via = sdecl[0]["via"] if sdecl else "attr"
         if sdecl:
             if via == "enum":
-                E = enum.Enum("E", {s["id"]: k + 1 for k, s in enumerate(sdecl)})
+                # plain Enum counted from 1, or IntEnum counted from 0 with the LAST state as member 0 (so that a final state
+                # - finals come last - is the falsy member); a single final state is passed bare, as documented
+                if len(sdecl) % 2:
+                    E = enum.Enum("E", {s["id"]: k + 1 for k, s in enumerate(sdecl)})
+                else:
+                    E = enum.IntEnum("E", {s["id"]: (k + 1) % len(sdecl) for k, s in enumerate(sdecl)})
                 initial = [E[s["id"]] for s in sdecl if s["initial"]]
                 finals = [E[s["id"]] for s in sdecl if s["final"]]
                 if len(initial) == 1:
-                    sts = States.from_enum(E, initial=initial[0], final=finals, use_enum_instance=False)
+                    sts = States.from_enum(E, initial=initial[0], final=finals[0] if len(finals) == 1 else finals,
+                                           use_enum_instance=False)
                     attrs["_sts"] = sts
                     for s in sdecl:
                         states[s["id"]] = getattr(sts, s["id"])
